@@ -27,9 +27,9 @@ from twisted.web.template import Tag  # noqa: E402
 _orig_init = astbuilder._ValueFormatter.__init__
 
 
-def _init(self, value, ctx):
+def _init(self, value, *a, **kw):
     self._verif_value = value
-    _orig_init(self, value, ctx)
+    _orig_init(self, value, *a, **kw)
 
 
 astbuilder._ValueFormatter.__init__ = _init
@@ -123,6 +123,7 @@ def run_def(job):
             'shown': shown,
             'is_async': bool(ob.is_async),
             'annotations': sorted(str(k) for k in (ob.annotations or {})),
+            'annot_items': [[str(k), opt(None if v is None else enc_expr(v))] for k, v in (ob.annotations or {}).items()],
             'reports': [c for c in map(classify_report, _REPORTS) if c is not None]}
 
 
